@@ -396,7 +396,15 @@ def run_scenario(sc):
         iso = 1 if sc.get("iso") else 0
         deadline = loop.time() + sc.get("drain", 30.0)
         reached = {}
+        last_pos, last_progress = None, loop.time()
+        loop.max_steps = loop.steps + sc.get("quiet_steps", 600000)
         while loop.time() < deadline:
+            cur_pos = [consumer._subscription.subscription.assignment.state_value(tp)._position for tp in tps]
+            if cur_pos != last_pos:
+                last_pos, last_progress = cur_pos, loop.time()
+            elif loop.time() - last_progress > sc.get("stall_limit", 15.0):
+                net.ev("quiet_stalled", positions=cur_pos)
+                break                      # nothing moved for a long time: the monitor reports it
             done = True
             for tp in tps:
                 lg = net.log("t", tp.partition)
